@@ -56,7 +56,7 @@ def account(ctx, summary, failures, mine, decision_owner):
     cov["evaluations"] += summary["events"]
     cov["distinct_nontrivial"] += summary["distinct_nontrivial"]
     cov["traces_validated_against_impl"] += summary["compilations"]
-    cov.setdefault("replayed", []).append({k: summary[k] for k in ("scope", "cases", "compilations", "accepted", "rejected", "events", "drift", "programs_over_255", "xnet_crosschecked", "dump_checked", "retargeted_values", "host_order_compilations", "whole_table_compilations", "compilations_under_PER_LINUX32", "process_without_a_file_system", "process_whose_seccomp_call_is_answered_ENOSYS")})
+    cov.setdefault("replayed", []).append({k: summary[k] for k in ("scope", "cases", "compilations", "accepted", "rejected", "events", "drift", "programs_over_255", "xnet_crosschecked", "dump_checked", "retargeted_values", "host_order_compilations", "whole_table_compilations", "compilations_under_PER_LINUX32", "policy_values_compiled_before_with_another_content", "process_without_a_file_system", "process_whose_seccomp_call_is_answered_ENOSYS")})
     for s in summary["samples"] or []:
         ctx.sample(s)
     for d in summary["drift_sample"] or []:
